@@ -200,3 +200,26 @@ func oracleProofs(probes [][]byte, working bool) Oracle {
 		return nil
 	}}
 }
+
+// oracleProofsLight: proofs of the working tree and of the version it is based on only (C16: proofs taken on top of
+// a legacy-format database, where unsaved nodes refer to hash-keyed legacy children).
+func oracleProofsLight(probes [][]byte) Oracle {
+	return Oracle{Name: "proofs-light", Fn: func(w *World) *Violation {
+		t, m := w.Tree, w.M
+		if m.Cur > 0 && m.Has(m.Cur) && len(m.Conts[m.Cur]) > 0 {
+			it, err := t.GetImmutable(m.Cur)
+			if err != nil {
+				return viol("proof", "GetImmutable(%d): %v", m.Cur, err)
+			}
+			if v := checkProofs(proofTree{fmt.Sprintf("v%d", m.Cur), it, m.Conts[m.Cur], ref.Hash(m.Roots[m.Cur], m.Cur)}, probes, nil); v != nil {
+				return v
+			}
+		}
+		if len(m.WorkC) > 0 {
+			if v := checkProofs(proofTree{"working", t.ImmutableTree, m.WorkC, m.WorkingHash()}, probes, nil); v != nil {
+				return v
+			}
+		}
+		return nil
+	}}
+}
